@@ -469,7 +469,7 @@ def stdout_carry_over(chk, stats):
 
 
 def main():
-    chk = Check('C17')
+    chk = Check('C17', extra_modules=['Bardolph.Props.C17Frame'])
     chk.lean_phase(sections={'ResetCoverage'})
     env.configure_basic()
     stats = {'compiles': 0, 'compile_outcomes': {}, 'executions': 0, 'stopped_runs': 0}
